@@ -21,10 +21,13 @@ type Env struct {
 	old   *State
 	now0  Term // "fresh" means born at or after this
 	bound bool // evaluating under a binder (quantifier / spec body): no side facts may be asserted
+	// caller-side evaluation of a callee's clauses: lastresult("X") there denotes the result of the
+	// callee's own latest direct call to X, which the caller only knows as some value (fresh per call)
+	opaqueLast map[string]Term
 }
 
 func (env *Env) with(name string, v TV) *Env {
-	n := &Env{e: env.e, vars: map[string]TV{}, state: env.state, old: env.old, now0: env.now0, bound: env.bound}
+	n := &Env{e: env.e, vars: map[string]TV{}, state: env.state, old: env.old, now0: env.now0, bound: env.bound, opaqueLast: env.opaqueLast}
 	for k, x := range env.vars {
 		n.vars[k] = x
 	}
@@ -33,7 +36,7 @@ func (env *Env) with(name string, v TV) *Env {
 }
 
 func (env *Env) inState(st *State) *Env {
-	return &Env{e: env.e, vars: env.vars, state: st, old: env.old, now0: env.now0, bound: env.bound}
+	return &Env{e: env.e, vars: env.vars, state: st, old: env.old, now0: env.now0, bound: env.bound, opaqueLast: env.opaqueLast}
 }
 
 var usePatternInference = false
@@ -517,6 +520,14 @@ func (env *Env) evalCall(n *ECall) TV {
 		sx, ok := n.Args[0].(*EStr)
 		if !ok {
 			evalFail("lastresult: callee name expected")
+		}
+		if env.opaqueLast != nil {
+			if t, ok := env.opaqueLast[sx.V]; ok {
+				return TV{T: t}
+			}
+			t := e.fresh("calleelast", SInt)
+			env.opaqueLast[sx.V] = t
+			return TV{T: t}
 		}
 		for k, t := range env.state.heap {
 			if strings.HasPrefix(k, "last|"+sx.V+"|") {
